@@ -5,7 +5,9 @@ package zygo
 // C13 — parsing depends only on the text: not on chunking, not on history.
 
 import (
+	"bufio"
 	"bytes"
+	"strings"
 	"reflect"
 )
 
@@ -462,4 +464,63 @@ func vh_C13_moreinput() {
 	default:
 		vReach("mismatch")
 	}
+}
+
+// vh_C13_repl: the REPL's continuation loop (getExpressionWithLiner with
+// the line reader) hands a multi-line text to the parser one line at a time,
+// the parser pausing in between; what it reads equals the parse of the same
+// text given whole - whatever the continuation lines look like (empty,
+// blanks only, a comment, ordinary text) and wherever the text is open when
+// the line ends (list, array, raw string, string, block comment, infix).
+var vC13ReplShapes = []string{
+	"(def s `alpha\nM\nomega`)\n",
+	"(def s \"alpha\nM\nomega\")\n",
+	"[1 2 /* one\nM\n two */ 3]\n",
+	"(+ 1\nM\n 2)\n",
+	"[1\nM\n2]\n",
+	"{a = 1 +\nM\n 2}\n",
+	"(list `a\nM\n` \"b\nM\nc\")\n",
+	"(def h (hash a: 1\nM\n b: 2))\n",
+}
+
+var vC13ReplMiddles = []string{"", " ", "\t ", "x", "  x ", "// c", "7", ";"}
+
+func vh_C13_repl() {
+	vFormatOpaque(true)
+	k := vChoice("shape", len(vC13ReplShapes))
+	m := vChoice("middle", len(vC13ReplMiddles))
+	text := vReplace(vC13ReplShapes[k], "M", vC13ReplMiddles[m])
+	wenv := vEnvs(2)[0]
+	wenv.parser.ResetAddNewInput(bytes.NewBuffer([]byte(text)))
+	whole, werr := wenv.parser.ParseTokens()
+	env := vEnvs(2)[1]
+	pr := &Prompter{prompt: ""}
+	reader := bufio.NewReader(strings.NewReader(text))
+	var all []Sexp
+	var rerr error
+	for i := 0; i < 6 && len(all) < len(whole); i++ {
+		var xs []Sexp
+		_, xs, rerr = pr.getExpressionWithLiner(env, reader, true)
+		if rerr != nil {
+			break
+		}
+		all = append(all, xs...)
+	}
+	if werr != nil {
+		// a text that does not parse whole does not parse line by line either
+		vAssert(rerr != nil, "line-by-line-fails-when-the-whole-text-fails")
+		vReach("repl")
+		return
+	}
+	vAssert(rerr == nil, "line-by-line-parses-when-the-whole-text-parses")
+	if rerr != nil {
+		return
+	}
+	vAssert(len(all) == len(whole), "line-by-line-reads-as-many-expressions")
+	if len(all) == len(whole) {
+		for i := range all {
+			vAssert(vSexpEq(all[i], whole[i]), "line-by-line-reads-the-same-expressions")
+		}
+	}
+	vReach("repl")
 }
